@@ -24,6 +24,10 @@ checks = {
   "Hands every file produced by seeded write histories to an independent decoder written from the HDF5 specification: strict decode (each deviation = issue key), tolerant decode + extent invariants (inside file, below EOF address, disjoint), and comparison of decoded tree/shapes/types/raw bytes/attribute bytes with what was written.",
   "The decoder is the stand-in for the specification (validated on the reference corpus against h5dump output); conformance is decided only for structures it visits.",
   TECH + ": independent spec decoder as observer of the bytes the library writes"),
+ "C06": ("exploration",
+  "Opens every file of the bundled reference corpus with the library reader, dumps everything it offers, and compares what was returned without error with (1) the h5dump DDL files shipped with the corpus (members incl. links, kinds, shapes, datatypes, values, strings, compound members, attributes) and (2) the independent decoder for every numeric dataset. The corpus is enumerated completely.",
+  "h5dump float output is compared at its printed precision; reader errors are accepted answers; a missing member is judged only under a parent the reader listed.",
+  TECH + ": differential oracle (reference tool output + independent decoder) over reader executions on the whole corpus"),
  "C08": ("exploration",
   "Runs every ordering of the writer's filters over payloads from 0 B to 1 MiB: Apply/Remove identity, pipeline-message encode/parse identity, the reader's decoder on the writer's bytes, single-byte corruption of Fletcher-32 protected chunks on both decoders, plus filtered datasets end to end through the public API.",
   "Fletcher-32 blind spot (0x0000 vs 0xFFFF words) excluded; Apply errors accepted only for shuffle length mismatches.",
